@@ -225,8 +225,202 @@ fn check(b: &mut Built, r: &mut Report, rp: &dyn Fn() -> Json, shape: u32) {
     r.count("instructions_visited", expected.len() as u64);
 }
 
+/// The instruction sequence of a module as its structure defines it (global sections in declaration order,
+/// then each function: definition, parameters, blocks (label, instructions), end), by element address.
+#[allow(clippy::type_complexity)]
+fn structural_order(m: &dr::Module) -> (Vec<*const dr::Instruction>, Vec<Vec<*const dr::Instruction>>) {
+    let mut g: Vec<*const dr::Instruction> = vec![];
+    let mut push_all = |v: &Vec<dr::Instruction>| g.extend(v.iter().map(|i| i as *const _));
+    push_all(&m.capabilities);
+    push_all(&m.extensions);
+    push_all(&m.ext_inst_imports);
+    if let Some(i) = &m.memory_model {
+        g.push(i as *const _);
+    }
+    let mut push_all = |v: &Vec<dr::Instruction>| g.extend(v.iter().map(|i| i as *const _));
+    push_all(&m.entry_points);
+    push_all(&m.execution_modes);
+    push_all(&m.debug_string_source);
+    push_all(&m.debug_names);
+    push_all(&m.debug_module_processed);
+    push_all(&m.annotations);
+    push_all(&m.types_global_values);
+    let mut fs = vec![];
+    for f in &m.functions {
+        let mut v: Vec<*const dr::Instruction> = vec![];
+        if let Some(i) = &f.def {
+            v.push(i as *const _);
+        }
+        v.extend(f.parameters.iter().map(|i| i as *const _));
+        for b in &f.blocks {
+            if let Some(i) = &b.label {
+                v.push(i as *const _);
+            }
+            v.extend(b.instructions.iter().map(|i| i as *const _));
+        }
+        if let Some(i) = &f.end {
+            v.push(i as *const _);
+        }
+        fs.push(v);
+    }
+    (g, fs)
+}
+
+/// Marker-free check for arbitrary module values (realistic content, repeated identical instructions).
+fn check_any(m: &mut dr::Module, r: &mut Report, rp: &dyn Fn() -> Json, what: &str) {
+    let fail = |r: &mut Report, rule: &str, detail: String| r.violation(format!("C15:{}", rule), format!("{}: {}", what, detail), rp());
+    let (g, fs) = structural_order(m);
+    let expected: Vec<*const dr::Instruction> = g.iter().copied().chain(fs.iter().flatten().copied()).collect();
+    let all: Vec<*const dr::Instruction> = m.all_inst_iter().map(|i| i as *const _).collect();
+    if all != expected {
+        let at = all.iter().zip(&expected).position(|(a, b)| a != b).unwrap_or(all.len().min(expected.len()));
+        fail(r, "all_inst_iter", format!("all_inst_iter visits {} instructions, the module's structure holds {}; first difference at position {}", all.len(), expected.len(), at));
+        return;
+    }
+    let glob: Vec<*const dr::Instruction> = m.global_inst_iter().map(|i| i as *const _).collect();
+    if glob != g {
+        fail(r, "global_inst_iter", format!("global_inst_iter visits {} instructions, {} precede the first function", glob.len(), g.len()));
+    }
+    for (fi, f) in m.functions.iter().enumerate() {
+        let fv: Vec<*const dr::Instruction> = f.all_inst_iter().map(|i| i as *const _).collect();
+        if fv != fs[fi] {
+            fail(r, "function_all_inst_iter", format!("function {} traversal visits {} instructions, its structure holds {}", fi, fv.len(), fs[fi].len()));
+        }
+    }
+    let words = match catch(|| m.assemble()) {
+        Ok(w) => w,
+        Err(p) => {
+            r.violation(format!("C15:panic:{}", crate::util::panic_key(&p)), format!("{}: assemble() panicked: {}", what, p.msg), rp());
+            return;
+        }
+    };
+    let mut concat: Vec<u32> = vec![];
+    let mut bounds = vec![];
+    if let Some(h) = &m.header {
+        concat.extend(h.assemble());
+    }
+    for i in m.all_inst_iter() {
+        bounds.push(concat.len());
+        concat.extend(i.assemble());
+    }
+    if concat != words {
+        let at = concat.iter().zip(&words).position(|(a, b)| a != b).unwrap_or(concat.len().min(words.len()));
+        let inst_no = bounds.iter().rposition(|b| *b <= at).unwrap_or(0);
+        let culprit = m.all_inst_iter().nth(inst_no).map(crate::rs::show_inst).unwrap_or_default();
+        let op = m.all_inst_iter().nth(inst_no).map(|i| format!("{:?}", i.class.opcode)).unwrap_or_default();
+        r.violation(format!("C15:assemble-concat:{}", op), format!("{}: assemble() gives {} words, header ++ assembly of each visited instruction gives {}; first difference at word {} (visited instruction #{}: {})", what, words.len(), concat.len(), at, inst_no, culprit), rp());
+        return;
+    }
+    let rw: Vec<*const dr::Instruction> = m.all_inst_iter_mut().map(|i| i as *const dr::Instruction).collect();
+    if rw != expected {
+        fail(r, "all_inst_iter_mut", "all_inst_iter_mut visits a different element sequence than all_inst_iter".into());
+    }
+    let rw: Vec<*const dr::Instruction> = m.global_inst_iter_mut().map(|i| i as *const dr::Instruction).collect();
+    if rw != g {
+        fail(r, "global_inst_iter_mut", "global_inst_iter_mut visits a different element sequence than global_inst_iter".into());
+    }
+    for (fi, f) in m.functions.iter_mut().enumerate() {
+        let rw: Vec<*const dr::Instruction> = f.all_inst_iter_mut().map(|i| i as *const dr::Instruction).collect();
+        if rw != fs[fi] {
+            fail(r, "function_all_inst_iter_mut", "Function::all_inst_iter_mut visits a different element sequence than all_inst_iter".into());
+        }
+    }
+    r.count("instructions_visited", expected.len() as u64);
+    // how much repetition the module carries (identical instructions are what unique markers cannot produce)
+    let mut seen = std::collections::HashSet::new();
+    let dups = m.all_inst_iter().filter(|i| !seen.insert(i.assemble())).count();
+    if dups > 0 {
+        r.count("modules_with_identical_instructions", 1);
+    }
+}
+
+/// Random structural edits of a loaded module: still a dr::Module value, no longer one a loader would produce.
+fn edit(m: &mut dr::Module, rng: &mut Rng) -> String {
+    let mut log = vec![];
+    for _ in 0..rng.below(4) {
+        match rng.below(10) {
+            0 => {
+                m.header = None;
+                log.push("no header");
+            }
+            1 => {
+                if let Some(f) = rng.pick_mut(&mut m.functions) {
+                    f.def = None;
+                    log.push("function without definition");
+                }
+            }
+            2 => {
+                if let Some(f) = rng.pick_mut(&mut m.functions) {
+                    f.end = None;
+                    log.push("function without end");
+                }
+            }
+            3 => {
+                if let Some(f) = rng.pick_mut(&mut m.functions) {
+                    if let Some(b) = rng.pick_mut(&mut f.blocks) {
+                        b.label = None;
+                        log.push("block without label");
+                    }
+                }
+            }
+            4 | 5 => {
+                // an identical copy of an instruction, next to the original or further down the same block
+                if let Some(f) = rng.pick_mut(&mut m.functions) {
+                    if let Some(b) = rng.pick_mut(&mut f.blocks) {
+                        if !b.instructions.is_empty() {
+                            let i = rng.below(b.instructions.len());
+                            let c = b.instructions[i].clone();
+                            let at = if rng.chance(1, 2) { i + 1 } else { rng.range(i + 1, b.instructions.len() + 1) };
+                            b.instructions.insert(at.min(b.instructions.len()), c);
+                            log.push("instruction repeated in its block");
+                        }
+                    }
+                }
+            }
+            6 => {
+                let secs: [&mut Vec<dr::Instruction>; 6] = [&mut m.capabilities, &mut m.extensions, &mut m.debug_names, &mut m.annotations, &mut m.types_global_values, &mut m.debug_string_source];
+                let k = rng.below(6);
+                for (j, sct) in secs.into_iter().enumerate() {
+                    if j == k && !sct.is_empty() {
+                        let i = rng.below(sct.len());
+                        let c = sct[i].clone();
+                        sct.insert(i + 1, c);
+                        log.push("global instruction repeated");
+                    }
+                }
+            }
+            7 => {
+                if m.functions.len() >= 2 {
+                    let a = rng.below(m.functions.len());
+                    let f = m.functions.remove(a);
+                    let b = rng.below(m.functions.len() + 1);
+                    m.functions.insert(b, f);
+                    log.push("function moved");
+                }
+            }
+            8 => {
+                if !m.functions.is_empty() {
+                    let a = rng.below(m.functions.len());
+                    let mut f = m.functions[a].clone();
+                    if rng.chance(1, 2) {
+                        f.blocks.clear();
+                    }
+                    let b = rng.below(m.functions.len() + 1);
+                    m.functions.insert(b, f);
+                    log.push("function copied");
+                }
+            }
+            _ => {
+                m.memory_model = None;
+                log.push("no memory model");
+            }
+        }
+    }
+    log.join(", ")
+}
+
 pub fn run(cfg: &Cfg, rep: &mut Report) {
-    rep.rule = "directly constructed dr::Module values with unique marker instructions of varying word counts: all 2^13 present/absent combinations of the 13 optional/vector parts (sizes 1..3, functions with missing def/end/label, empty blocks), each checked: assemble() split by word counts vs construction order vs all_inst_iter / global_inst_iter / Function::all_inst_iter and the _mut twins (by element address); thorough adds random shapes. distinct_nontrivial = distinct part combinations".into();
+    rep.rule = "directly constructed dr::Module values with unique marker instructions of varying word counts: all 2^13 present/absent combinations of the 13 optional/vector parts (sizes 1..3, functions with missing def/end/label, empty blocks), each checked: assemble() split by word counts vs construction order vs all_inst_iter / global_inst_iter / Function::all_inst_iter and the _mut twins (by element address); then random shapes; stage `realistic`: modules with realistic content (boundary-value modules, linkage declarations, line-debug info with repeated identical instructions, random well-formed modules) as the loader files them, structurally edited (parts removed, instructions and functions repeated or moved), checked without markers: traversals by element address against the module's own structure, assemble() against header ++ assembly of each visited instruction. distinct_nontrivial = distinct part combinations".into();
     rep.exhaustive = true;
     run_stage(cfg, rep, "shapes", 1 << 13, |idx, rng, r| {
         let mut b = build(rng, idx as u32, 3);
@@ -235,6 +429,38 @@ pub fn run(cfg: &Cfg, rep: &mut Report) {
         }
         check(&mut b, r, &|| crate::util::replay_ref(cfg, "shapes", idx), idx as u32);
         r.nontrivial(format!("{:x}", idx));
+    });
+    // realistic content: modules of the other monitors' generators (boundary-value and idiom modules, random
+    // well-formed modules) as the loader files them, then edited structurally; identical instructions allowed
+    let n = cfg.n(6_000, 2_000_000);
+    run_stage(cfg, rep, "realistic", n, |idx, rng, r| {
+        let (label, words) = if idx % 3 != 0 {
+            let variant = if rng.chance(1, 2) { 9 + rng.next() % 2 } else { rng.next() % crate::scale::N_VARIANTS };
+            if matches!(variant, 3 | 4) && rng.chance(7, 8) {
+                return;
+            }
+            let (label, insts) = crate::scale::scale_module(rng, variant);
+            let bound = insts.iter().filter_map(|i| i.rid).max().unwrap_or(0).saturating_add(1);
+            let (w, _, _) = crate::genmod::encode_module(0x0001_0600, 0, bound, &insts, None);
+            (label, w)
+        } else {
+            let small = rng.chance(1, 2);
+            let b = crate::mon::c03::gen_base(rng, vec![], small);
+            ("random well-formed module".to_string(), b.words)
+        };
+        let rp = || crate::util::replay_ref(cfg, "realistic", idx);
+        let mut m = match catch(|| dr::load_words(&words)) {
+            Ok(Ok(m)) => m,
+            _ => {
+                r.count("realistic_modules_not_loadable", 1);
+                return;
+            }
+        };
+        let edits = edit(&mut m, rng);
+        let what = format!("{} [{}]", label, if edits.is_empty() { "as loaded" } else { &edits });
+        check_any(&mut m, r, &rp, &what);
+        r.seen("realistic_edits", if edits.is_empty() { "none".to_string() } else { edits });
+        r.count("realistic_modules", 1);
     });
     let n = cfg.n(60_000, 40_000_000);
     run_stage(cfg, rep, "random", n, |idx, rng, r| {
